@@ -32,7 +32,7 @@ PROPS = {
             {"engine": "reply", "args": ["-mode", "seq"], "n_quick": 1200, "n_thorough": 40000, "netns": True},
             {"engine": "reply", "args": ["-mode", "storm"], "n_quick": 12, "n_thorough": 400, "netns": True},
             {"engine": "reply", "args": ["-mode", "conc"], "n_quick": 1500, "n_thorough": 40000, "netns": True},
-            {"engine": "racestress", "args": [], "n_quick": 5, "n_thorough": 120, "netns": True},
+            {"engine": "racestress", "args": [], "n_quick": 5, "n_thorough": 120, "netns": True, "mountns": True},
         ],
         "race_build": True,
         "trivial_tags": [],
@@ -91,7 +91,8 @@ PROPS = {
         "proof_files": ["Proofs/ConfigFacts.v"],
         "runs": [{"engine": "profile", "args": [], "n_quick": 800, "n_thorough": 80000, "netns": True},
                  {"engine": "resolver", "args": ["-mode", "e2e"], "n_quick": 500, "n_thorough": 30000, "netns": True},
-                 {"engine": "resolver", "args": ["-mode", "hist"], "n_quick": 60, "n_thorough": 3000, "netns": True}],
+                 {"engine": "resolver", "args": ["-mode", "hist"], "n_quick": 60, "n_thorough": 3000, "netns": True},
+                 {"engine": "reply", "args": ["-mode", "conc"], "n_quick": 600, "n_thorough": 20000, "netns": True}],
         "trivial_tags": [r"^none$"],
         "rule": "random ordered profile lists (0-6 entries: v4/v6 nested subnets, MACs in three notations, interface conditions on "
                 "lo and a veth pair, unconditional ids; built with Profiles.Set) x 5 client tuples (absent src/dst/MAC, v4-mapped); "
@@ -140,7 +141,7 @@ PROPS = {
         "generated": {"cmd": ["locks-extract"], "out": "Gen/AccessTable.v",
                       "compile": ["Gen/AccessTable.v", "Properties/C15_instance.v"], "diag": "Gen/C15Diag.v",
                       "theorem": "C15_table_ok"},
-        "runs": [{"engine": "racestress", "args": [], "n_quick": 8, "n_thorough": 240, "netns": True},
+        "runs": [{"engine": "racestress", "args": [], "n_quick": 8, "n_thorough": 240, "netns": True, "mountns": True},
                  {"engine": "resolver", "args": ["-mode", "lmconc"], "n_quick": 2500, "n_thorough": 120000, "netns": True}],
         "trivial_tags": [],
         "rule": "translator: every method of the shared types (hosts / lease / router client tables, mDNS tables, DoH last-modified map, "
@@ -221,6 +222,7 @@ PROPS = {
             {"engine": "query", "args": ["-mode", "ecs"], "n_quick": 5000, "n_thorough": 300000},
             {"engine": "reply", "args": ["-mode", "seqecs"], "n_quick": 800, "n_thorough": 30000, "netns": True},
             {"engine": "clientinfo", "args": ["-mode", "probe"], "n_quick": 600, "n_thorough": 60000},
+            {"engine": "reply", "args": ["-mode", "conc"], "n_quick": 600, "n_thorough": 20000, "netns": True},
         ],
         "trivial_tags": [r"^perr$", r"^ok$", r"/perr"],
         "rule": "queries with 1-6 EDNS options (ECS v4/32, v6/128, other prefix lengths/families, short ECS, MAC, unknown codes) at any "
